@@ -65,10 +65,10 @@ func init() {
 func init() {
 	defProperty(&Property{
 		ID:    "C06",
-		Rules: []string{"EX-ORDER", "EX-ARITH", "EX-DISPATCH", "EX-STACK", "FX-EQUAL", "PN-ASSERT", "PN-HASH", "PN-DIV"},
-		Explanation: "Static decision of the structural clauses of C06. EX-ORDER: the result expressions of LessThan/LessOrEqual/GreaterThan/GreaterOrEqual (Integer and Date clauses), And, Or and Negate are evaluated abstractly over the complete finite domain the operators can observe - the three orderings {<,=,>} of the two asserted operands, resp. all truth assignments - and compared with the specification truth table (the operands are touched only through comparisons, so this is exhaustive; rewrites such as !(a<=b) or swapped operands evaluate to the same table). EX-ARITH: no native + - * << or negation on datalog.Integer anywhere in package datalog; every big.Int.Int64() is dominated by IsInt64() on the same value; Add/Sub/Mul call the big.Int method of their own name on (left,right) in that order; native / is reachable only on paths that have excluded divisor 0 and the pair (MinInt64,-1) (edge cut-set). EX-DISPATCH: the registries datalog constant <-> implementing type <-> Type() tag <-> printer clause <-> biscuit constant (convert / fromDatalog) are total, injective and name-consistent over the frozen list of 17 binary, 3 unary operators and 7 term kinds. EX-STACK: every Push/Pop error in Evaluate is tested and returned, success only under len(stack)==1. FX-EQUAL: every Term.Equal gates any true result by the comma-ok of the assertion to its own type. PN-ASSERT/PN-HASH/PN-DIV: ill-typed operands reach an error rather than a failed assertion, no interface-keyed map or interface == whose implementors are unhashable, integer division guarded against zero - i.e. evaluation cannot panic through these classes.",
+		Rules: []string{"EX-ORDER", "EX-ARITH", "EX-STRINGS", "EX-DISPATCH", "EX-STACK", "FX-EQUAL", "PN-ASSERT", "PN-HASH", "PN-DIV"},
+		Explanation: "Static decision of the structural clauses of C06. EX-ORDER: the result expressions of LessThan/LessOrEqual/GreaterThan/GreaterOrEqual (Integer and Date clauses), And, Or and Negate are evaluated abstractly over the complete finite domain the operators can observe - the three orderings {<,=,>} of the two asserted operands, resp. all truth assignments - and compared with the specification truth table (the operands are touched only through comparisons, so this is exhaustive; rewrites such as !(a<=b) or swapped operands evaluate to the same table). EX-ARITH: no native + - * << or negation on datalog.Integer anywhere in package datalog; every big.Int.Int64() is dominated by IsInt64() on the same value; Add/Sub/Mul call the big.Int method of their own name on (left,right) in that order; native / is reachable only on paths that have excluded divisor 0 and the pair (MinInt64,-1) (edge cut-set). EX-STRINGS: the success values of Prefix, Suffix, Regex, Contains (string case), Add (string case), Intersection, Union, Equal and Length are, as normalised access-path expressions, exactly the library function of the operator's own meaning applied to (left, right) in that order (strings.HasPrefix/HasSuffix/Contains, regexp.Compile(right).Match(left), symbols.Insert(left+right), Set.Intersect/Union, left.Equal(right), len of the string / bytes / set); Set.has is 'exists an Equal element over the full range', Intersect keeps the elements of s that t has, Union all of s plus the elements of t that s lacks. EX-DISPATCH: the registries datalog constant <-> implementing type <-> Type() tag <-> printer clause <-> biscuit constant (convert / fromDatalog) are total, injective and name-consistent over the frozen list of 17 binary, 3 unary operators and 7 term kinds. EX-STACK: every Push/Pop error in Evaluate is tested and returned, success only under len(stack)==1. FX-EQUAL: every Term.Equal gates any true result by the comma-ok of the assertion to its own type. PN-ASSERT/PN-HASH/PN-DIV: ill-typed operands reach an error rather than a failed assertion, no interface-keyed map or interface == whose implementors are unhashable, integer division guarded against zero - i.e. evaluation cannot panic through these classes.",
 		Decides:     "exact truth tables of the ordering and boolean operators; exactness/overflow discipline of + - * /; totality and consistency of operator dispatch; stack discipline; type-strict equality; absence of assertion/hash/division panics in evaluation",
-		NotDecided:  "results of string/regex/set-algebra operators (strings, regexp, set union/intersection contents), Length values, and anything inside math/big or regexp",
+		NotDecided:  "the library functions themselves (strings, regexp, math/big); set-inclusion branch of Contains beyond its use of Equal; semantics of symbols.Str for out-of-range symbols",
 		Technique:   "abstract interpretation over the finite ordering/truth domain + SSA guard (edge cut-set) analysis + registry table agreement",
 	})
 	defProperty(&Property{
@@ -159,8 +159,8 @@ func init() {
 func init() {
 	defProperty(&Property{
 		ID:    "C07",
-		Rules: []string{"WR-PROTO", "WR-ENUM", "WR-SYMS", "WR-FIELDS", "WR-ELEMWISE", "WR-VERSION", "WR-VERBATIM", "EX-DISPATCH", "SIG-GATE", "KI-PROPAGATE", "OWN-MUT", "OWN-CLONE"},
-		Explanation: "Static decision of the finite tables and coverage conditions on which wire fidelity rests, against a frozen copy of the published Biscuit v2 schema (wire constants: message/field numbers and labels, enum members, the 28 default symbols, offset 1024, version 3 - any edit to them is a behaviour change for every other implementation). WR-PROTO: pb/biscuit.proto is parsed and compared field by field and enum by enum with the frozen table, and the generated struct tags (wire kind, number, label, name, oneof) and enum constants of pb/biscuit.pb.go with the same table. WR-ENUM: the encoder and decoder switches for binary/unary operators, term kinds and expression element kinds are extracted clause by clause and must be total over the frozen lists, injective and name-consistent in both directions (datalog.BinaryX <-> pb.OpBinary_X <-> datalog.X{}), which also catches a consistent swap in both directions that round-trips inside this library but breaks interoperability. WR-SYMS: DEFAULT_SYMBOLS equals the frozen list in order, OFFSET is 1024 and never assigned, every threshold constant in Insert/Sym/Index/Str/Var is 1024, builders record Len() of their starting table and split the block's table exactly there. WR-FIELDS: every converter between the library's and the protobuf structures reads every field of its source and sets every field of every result literal. WR-ELEMWISE: every element-wise conversion loop (expressions, terms, facts, rules, queries) writes exactly one output element on every path that continues to the next input element (no input element is skipped or filtered). WR-VERSION: the decoder accepts a block only under version>=3 and version<=3 and keeps the declared version; encoders/builders write version 3. OWN-MUT/OWN-CLONE: the token-wide symbol table from which per-block tables are cut is never aliased between a token and its derivations or builders (an aliased table shifts or drops the symbols a sibling block declares on the wire). WR-VERBATIM: derived and re-loaded tokens carry the parent's signed blocks verbatim and Serialize marshals the stored envelope, so re-serialisation reproduces existing blocks byte for byte.",
+		Rules: []string{"WR-PROTO", "WR-ENUM", "WR-SYMS", "WR-SYMTAB", "WR-FIELDS", "WR-ELEMWISE", "WR-VERSION", "WR-VERBATIM", "EX-DISPATCH", "SIG-GATE", "KI-PROPAGATE", "OWN-MUT", "OWN-CLONE"},
+		Explanation: "Static decision of the finite tables and coverage conditions on which wire fidelity rests, against a frozen copy of the published Biscuit v2 schema (wire constants: message/field numbers and labels, enum members, the 28 default symbols, offset 1024, version 3 - any edit to them is a behaviour change for every other implementation). WR-PROTO: pb/biscuit.proto is parsed and compared field by field and enum by enum with the frozen table, and the generated struct tags (wire kind, number, label, name, oneof) and enum constants of pb/biscuit.pb.go with the same table. WR-ENUM: the encoder and decoder switches for binary/unary operators, term kinds and expression element kinds are extracted clause by clause and must be total over the frozen lists, injective and name-consistent in both directions (datalog.BinaryX <-> pb.OpBinary_X <-> datalog.X{}), which also catches a consistent swap in both directions that round-trips inside this library but breaks interoperability. WR-SYMS: DEFAULT_SYMBOLS equals the frozen list in order, OFFSET is 1024 and never assigned, every threshold constant in Insert/Sym/Index/Str/Var is 1024, builders record Len() of their starting table and split the block's table exactly there. WR-SYMTAB: every Biscuit literal's token-wide symbol table is a fresh Clone() that is extended, before the token is returned, with the symbols of exactly the blocks added in that function (authority first, then every decoded block on every continuing iteration of the full-range loop; the new block in Append/newBiscuit, none in Seal), and a new block is accepted only under IsDisjoint(token table, block table). WR-FIELDS: every converter between the library's and the protobuf structures reads every field of its source and sets every field of every result literal. WR-ELEMWISE: every element-wise conversion loop (expressions, terms, facts, rules, queries) writes exactly one output element on every path that continues to the next input element (no input element is skipped or filtered). WR-VERSION: the decoder accepts a block only under version>=3 and version<=3 and keeps the declared version; encoders/builders write version 3. OWN-MUT/OWN-CLONE: the token-wide symbol table from which per-block tables are cut is never aliased between a token and its derivations or builders (an aliased table shifts or drops the symbols a sibling block declares on the wire). WR-VERBATIM: derived and re-loaded tokens carry the parent's signed blocks verbatim and Serialize marshals the stored envelope, so re-serialisation reproduces existing blocks byte for byte.",
 		Decides:     "agreement of schema, generated code, converters and symbol rules with the published wire format; field coverage of all converters; version gate; verbatim carriage of signed blocks",
 		NotDecided:  "byte-level equality of a full round trip and protobuf encoding itself; resolvability of every symbol index for arbitrary block content (only the split point is checked); equality of String() output",
 		Technique:   "table agreement: schema file, struct tags, enum constants and switch clauses extracted from the typed AST and compared with a frozen specification table",
@@ -170,8 +170,8 @@ func init() {
 func init() {
 	defProperty(&Property{
 		ID:    "C14",
-		Rules: []string{"PG-LADDER", "PG-EMIT", "PG-OPMAP", "PG-ERR", "PG-LITERAL", "PR-PARENS"},
-		Explanation: "Static decision of the structural clauses of C14. PG-LADDER: starting from parser.Expression the chain of Left-field types is followed; each level's operator set is read from the participle tag of its operator node, its associativity from the Right field (slice + @@* = left-associative chain, pointer + @@? = non-associative); the extracted ladder must equal the frozen precedence of the property statement (|| < && < non-associative comparisons < + - < * / < prefix ! < method calls) and the precedence table parsed from GRAMMAR.md. PG-EMIT: in every operator node the operand's ToExpr call dominates the operator's (postfix emission), in every level Left is emitted before any Right (left associativity), negation is emitted as operand then UnaryNegate exactly under Operator != nil. PG-OPMAP: every operator token accepted by a grammar tag is a key of operatorMap, whose value has a clause in Operator.ToExpr assigning the specified biscuit operator (no silent zero value, no nil Op that panics on first use). PG-ERR: no error result of any call inside package parser is discarded. PG-LITERAL: every set element is tested for being a variable (ErrVariableInSet) inside the full element loop, an unbound parameter yields an error, parsed facts are tested term by term (ErrVariableInFact). PR-PARENS: UnaryParens is emitted exactly after a parenthesised sub-expression.",
+		Rules: []string{"PG-LEXER", "PG-LADDER", "PG-EMIT", "PG-OPMAP", "PG-ERR", "PG-LITERAL", "PR-PARENS"},
+		Explanation: "Static decision of the structural clauses of C14. PG-LEXER: the lexer rule table (token class names, patterns, priority order) and the parser options (lookahead 1, elided whitespace/EOL, unquoted strings) equal the frozen lexical syntax of the documented grammar, and every grammar entry point is built with them. PG-LADDER: starting from parser.Expression the chain of Left-field types is followed; each level's operator set is read from the participle tag of its operator node, its associativity from the Right field (slice + @@* = left-associative chain, pointer + @@? = non-associative); the extracted ladder must equal the frozen precedence of the property statement (|| < && < non-associative comparisons < + - < * / < prefix ! < method calls) and the precedence table parsed from GRAMMAR.md. PG-EMIT: in every operator node the operand's ToExpr call dominates the operator's (postfix emission), in every level Left is emitted before any Right (left associativity), negation is emitted as operand then UnaryNegate exactly under Operator != nil. PG-OPMAP: every operator token accepted by a grammar tag is a key of operatorMap, whose value has a clause in Operator.ToExpr assigning the specified biscuit operator (no silent zero value, no nil Op that panics on first use). PG-ERR: no error result of any call inside package parser is discarded. PG-LITERAL: every set element is tested for being a variable (ErrVariableInSet) inside the full element loop, an unbound parameter yields an error, parsed facts are tested term by term (ErrVariableInFact). PR-PARENS: UnaryParens is emitted exactly after a parenthesised sub-expression.",
 		Decides:     "precedence, associativity and non-associativity of the grammar against the documentation; postfix emission order; totality of the operator-token mapping; error discipline of the conversion layer; reporting of the listed malformed inputs",
 		NotDecided:  "absence of panics inside participle and its lexer; that the lexer regular expressions denote exactly the documented literal forms; value-level correctness of converted literals",
 		Technique:   "struct-tag grammar extraction + table agreement with GRAMMAR.md + SSA dominance (emission order) + error-discard analysis",
